@@ -18,7 +18,7 @@ class C08(Prop):
             'testtools.TestResult) and TestByTestResult; histories of 0-5 tests x 1-2 runs with tags/time/stop/done/progress between, '
             'outcomes as exc_info / reason / details dicts (0-3 text or binary attachments incl. whitespace, newlines, the names traceback '
             'and reason), tests being TestCase / PlaceHolder / ErrorHolder; 15% of the histories are damaged (call dropped, doubled or '
-            'swapped) when no TestByTestResult is in the graph; 12% of the cases are linear stacks (0-3 ExtendedToOriginalDecorator / '
+            'swapped) and 8% of the tests report a second outcome inside the same startTest/stopTest when no TestByTestResult is in the graph; attachments named reason may be non-text; 12% of the cases are linear stacks (0-3 ExtendedToOriginalDecorator / '
             'TestResultDecorator / Tagger layers) over a TestByTestResult whose on_test callback raises for a random subset of the tests '
             '(the harness catches the exception at the caller and carries on); 30% of the Taggers only remove tags (from the pool the '
             'histories use at run level). thorough adds every 1- and 2-test history (6 outcomes x 3 argument forms) '
@@ -31,7 +31,8 @@ class C08(Prop):
                    'exceptions escaping a result are not modelled: inputs on which the real code raises are outside the domain - except a raising '
                    'on_test callback of a TestByTestResult under a linear stack (no MultiTestResult / ThreadsafeForwardingResult above it): the '
                    'exception is caught by the caller, which goes on reporting; every exception caught must come from a recorded callback',
-                   'Content objects are reduced to text (decoded) / non-text (rendered content type) / traceback']
+                   'Content objects are reduced to text (decoded) / non-text (rendered content type) / traceback; text that cannot be encoded for '
+                   'rendering (lone surrogates in messages) is outside the alphabet']
 
     manifest = {
         'text': 'Theorems for all adapter graphs (any depth / fan-out) of ExtendedToOriginalDecorator, TestResultDecorator, Tagger, '
@@ -130,6 +131,10 @@ class C08(Prop):
                 noise(0.3, True)
                 h.append(['add', kind, t, arg])
                 noise(0.2, True)
+                if not has_tbt and rng.random() < 0.08:
+                    # a second outcome inside the same bracket (unittest 3.12: failing body + failing tearDown)
+                    k2 = rng.choice(['error', 'error', 'failure'])
+                    h.append(['add', k2, t, R.gen_arg(rng, k2)])
                 h.append(['stopTest', t])
             noise(0.2, False)
             if rng.random() < 0.85:
